@@ -251,9 +251,16 @@ CHECKS = {
             "of any scalar element of either is read by it as exactly that element replaced and leaves the other's value untouched), "
             "C09_copy_shares_referents (node model of C08: a copy constructed inside the same buffer is a fresh node whose scalars "
             "have the source's values and whose references denote the SAME referents - re-encoded relative to the new slots - and "
-            "the reference-graph invariant holds again).",
-            "Partial: copies of reference-holding types into ANOTHER buffer (duplicated referents) and of arrays / dynamic structs "
-            "holding references: executable heap model + oracle only.",
+            "the reference-graph invariant holds again), C09_copy_into_other_buffer (node model, TWO buffers: copy construction "
+            "into another buffer - the node and, depth first and once per path, everything it refers to - leaves the destination "
+            "with its invariant, everything it held byte for byte and new nodes only; the source is only read; and for EVERY depth n "
+            "the copy is indistinguishable from the source by reads along paths of n references: equal scalars, nulls, classes - "
+            "by induction over the recursion, whenever it ends; a cycle never ends, as in the library), "
+            "C09_copy_into_other_buffer_stable (that stays so in every later state that keeps the bytes of the nodes created). "
+            "The model `xcopy` is executed against the library by the rg stream (xcopy / xback operations between two buffers of "
+            "different kinds, capacities, alignments).",
+            "Partial: copies of arrays / dynamic structs holding references (into the same or another buffer): executable heap model "
+            "+ oracle only; a cyclic source dies with RecursionError in the library (the model: out of fuel) - not exercised.",
             "7/C09"),
     "C17": ("Lean 4 proof of the decision logic (positional refused, arity assertion, lookup by name) and address arithmetic "
             "(current storage + offset, first element of slices, offset + data offset) of the kernel call path; echo kernels "
